@@ -157,6 +157,24 @@ def noteSeen (m : M) (recs : List Rec) (strict : Bool) (cmd : Option Nat) : M ×
 
 /-- guard + call.  Returns (state with seen sets updated, result, store after, wasCall) -/
 def exec (m : M) (f : List String) : M × String × Store × Bool :=
+  match f with
+  | "xdup" :: v :: rest =>
+    -- the same exact proposal twice in one StoreAppendBatch; `fail` = the physical commit fails:
+    -- then NEITHER item may be answered durable and the store is unchanged
+    if v ≠ "ok" ∧ v ≠ "fail" then (m, "bad-op", m.store, false) else
+    match parseCmd ("xapp" :: rest) with
+    | some (.mut op recs strict cmd) =>
+      let (m1, dup) := noteSeen m recs strict cmd
+      if dup then (m1, "guard:dup", m.store, false) else
+      let (r, s') := step m.store op
+      match r with
+      | .ok [b, n, _] =>
+        if v == "ok" then (m1, s!"ok.{b}.{n}.1 ok.{b}.{n}.2", s', true)
+        else (m1, "err err", m.store, true)
+      | .frontier => (m1, "err:frontier", m.store, true)
+      | _ => (m1, "err err", m.store, true)
+    | _ => (m, "bad-op", m.store, false)
+  | _ =>
   match parseCmd f with
   | none => (m, "bad-op", m.store, false)
   | some .reopen => (m, "ok", m.store, false)
@@ -243,7 +261,10 @@ def stepOp (m : M) (op impl : String) : M × String × String :=
   | _ =>
     let m := if m.mode = 0 then { m with mode := 1 } else m
     let (m1, res, s', _) := exec m f
-    ({ m1 with store := s' }, res ++ " # " ++ dump s', liveVerdict)
+    let verdict :=
+      if f.take 2 == ["xdup", "fail"] ∧ (implRes.splitOn "ok.").length > 1 then "viol:acked-not-durable-staged-replay"
+      else liveVerdict
+    ({ m1 with store := s' }, res ++ " # " ++ dump s', verdict)
 
 end C09D
 
